@@ -178,6 +178,20 @@ fn extract<W: Write>(out: &mut W, hi: usize, hist: &Value) {
             if done || r.is_err() { break; }
         }
     }
+    // the other methods of Iterator on the listings (provided by std in terms of next() unless the library overrides them):
+    // each is one call as far as the lock is concerned
+    rd!("walk.nth", { let _ = cf.walk().nth(2); });
+    rd!("walk.skip_next", { let _ = cf.walk().skip(1).next(); });
+    rd!("walk.step_by", { let _ = cf.walk().step_by(2).count(); });
+    rd!("walk.count", { let _ = cf.walk().count(); });
+    rd!("walk.last", { let _ = cf.walk().last(); });
+    rd!("walk.size_hint", { let _ = cf.walk().size_hint(); });
+    rd!("walk.fold", { let _ = cf.walk().fold(0u64, |a, e| a + e.len()); });
+    rd!("walk.find", { let _ = cf.walk().find(|e| e.is_stream()); });
+    rd!("read_storage.nth", { if let Ok(mut it) = cf.read_storage("/a") { let _ = it.nth(1); } });
+    rd!("read_storage.collect", { if let Ok(it) = cf.read_storage("/a") { let _ = it.collect::<Vec<_>>(); } });
+    rd!("read_root_storage.last", { let _ = cf.read_root_storage().last(); });
+    rd!("walk_storage.nth", { if let Ok(mut it) = cf.walk_storage("/a") { let _ = it.nth(1); let _ = it.nth(0); } });
     // a read-only call while an iterator is alive (guards must not outlive next())
     {
         let mut it = cf.walk();
@@ -324,6 +338,9 @@ fn stream_lens(cf: &Cf, which: u64) -> Result<Vec<Value>, String> {
                 }
             }
             3 => {
+                // (through skip / nth / step_by now and then: the same listing by other Iterator methods)
+                let _ = cf.walk().nth(3).map(|e| e.len());
+                let _ = cf.walk().skip(2).step_by(2).count();
                 if let Ok(it) = cf.read_storage("/a") {
                     for e in it {
                         if e.is_stream() {
